@@ -15,6 +15,7 @@ var fileProfile = map[string]string{
 	"intr_protosize.go":    "poolsync",
 	"intr_proto_adm.go":    "admission",
 	"intr_json.go":         "admission",
+	"intr_json_enc.go":     "admission",
 	"intr_ledger_proto.go": "ledger",
 	"intr_ledger_json.go":  "ledger",
 	"intr_opaque.go":       "ledger",
